@@ -128,7 +128,15 @@ def reused(pre, which, *args):
     r = nc.from_progression_shorthand(*args)
     return False if r is False else state(r)
 
+def member(items, removed, probes):
+    """membership of notes in a container built from `items` from which `removed` were then taken out again (both may be empty)"""
+    nc = NoteContainer([Note(x[0], x[1]) for x in items])
+    for x in removed:
+        nc.remove_note(Note(x[0], x[1]))
+    return [len(nc), [Note(p[0], p[1]) in nc for p in probes], nc == NoteContainer(), NoteContainer() == nc]
+
 IMPL = {
+    "nc.member": member,
     "nc.reused": reused,
     "nc.run": run,
     "nc.run2": run2,
@@ -223,6 +231,11 @@ def cases(tier, rng):
     for key in ["C", "F#", "Eb", "a", "c#", "ab", "d", "A", "D"]:
         for num in ["I", "ii", "iii7", "IV", "V7", "bVII", "#ivdim7", "VIm7", "X", "i", "III", "vi7"]:
             yield Case("nc.from_progression", [num, key], "from_progression", kind=("prog",))
+    # membership and equality, also on a container that is empty from the start or has been emptied again
+    probes = [["C", 4], ["B#", 3], ["E", 4], ["Fb", 4], ["G", 9], ["C", 0]]
+    for items, removed in (([], []), ([["C", 4]], [["C", 4]]), ([["C", 4], ["E", 4]], [["E", 4], ["B#", 3]]), ([["C", 4]], []),
+                           ([["B#", 3], ["Fb", 4], ["G", 9]], []), ([["C", 0]], [["C", 0]]), ([["E", 4], ["G", 4]], [["G", 4]])):
+        yield Case("nc.member", [items, removed, probes], "membership", model=False, kind=("member",))
     # the shorthand constructors on a container that is already in use (they start from an empty container)
     for pre in ([["C", 2]], [["G", 5], ["A", 6]], [["C", 4], ["E", 4], ["G", 4]], [["B", 7]]):
         for r, k in [("C", "M"), ("A", "m7"), ("Eb", "7b9"), ("F#", "dim7"), ("G", "13")]:
@@ -397,6 +410,14 @@ def oracle(c, obs):
                 return "after %s the containers are not what independent sets predict (one container changed through another?)" % t
             nc, others = st[0], st[1]
         return None
+    if kind[0] == "member":
+        items, removed, probes = c["args"]
+        if isinstance(obs, Err):
+            return "membership / equality on a container raised %s" % obs.name
+        gone = {pitch(n, o) for n, o in removed}
+        held = {pitch(n, o) for n, o in items} - gone
+        want = [len(held), [pitch(n, o) in held for n, o in probes], not held, not held]
+        return None if obs == want else "length / membership / equality with the empty container do not follow the content (want %s)" % (want,)
     if kind[0] == "chord":
         _, r, k = kind
         want_names = spec_notes_of(r, k)
